@@ -8,6 +8,8 @@ from vf import ref
 
 DYADIC = [0.0, 0.25, 0.5, 0.75, 1.0, 1.5, 2.0, 3.0, 5.0, 8.0]
 SCALES = [0.25, 0.5, 2.0, 3.0, 8.0]
+# integer multipliers k for which fl(fl(1/k) * k) != 1: exact to apply, but reveal asymmetric float proportionality tests
+ODD_SCALES = [7.0, 49.0, 98.0, 103.0, 107.0, 161.0, 187.0]
 DECIMAL = [0.0, 0.1, 0.3, 0.7, 1.0, 1.1, 2.3]
 
 PRESET_NAMES = list(ref.PRESETS)
@@ -39,7 +41,7 @@ def scheme_preset(rng):
 
 
 def scheme_preset_multiple(rng):
-    return scale(scheme_preset(rng), rng.choice(SCALES))
+    return scale(scheme_preset(rng), rng.choice(SCALES + ODD_SCALES))
 
 
 def scheme_perturbed(rng):
@@ -101,6 +103,46 @@ def scheme_degenerate(rng):
     ])
 
 
+def scheme_free_ties(rng):
+    """S9: creating and breaking a tie costs nothing (B[2] = T[0] = T[1] = 0): many rankings at distance 0"""
+    b = rng.choice([0.5, 1.0, 2.0])
+    b3 = rng.choice([0.0, 0.0, 1.0])
+    t34 = rng.choice([0.0, 1.0])
+    return [[0.0, b, 0.0, b3, b3 + rng.choice([0.0, 1.0]), rng.choice([0.0, 1.0])],
+            [0.0, 0.0, 0.0, t34, t34, rng.choice([0.0, 0.5])]]
+
+
+def scheme_near_tie(rng):
+    """S10: a preset family whose tie cost p is a hair above a round value (p * (1 + 2^-18), exactly representable):
+    rankings whose scores differ by a relative 1e-6..1e-5 -- equal for a sloppy float comparison, different in fact"""
+    eps = 2.0 ** -rng.choice([16, 18, 20])
+    p = rng.choice([0.5, 1.0]) * (1.0 + eps)
+    fam = rng.choice(["unifying", "pseudodistance", "induced"])
+    if fam == "unifying":
+        return [[0., 1., p, 0., 1., p], [p, p, 0., p, p, 0.]]
+    if fam == "pseudodistance":
+        return [[0., 1., p, 0., 1., 0.], [p, p, 0., p, p, 0.]]
+    return [[0., 1., p, 0., 0., 0.], [p, p, 0., 0., 0., 0.]]
+
+
+def scheme_ratio_band(rng):
+    """S11: tie cost t = r * inversion cost b with r on both sides of the critical ratios 1/3, 1/2, 1 (the no-tie
+    pruning of the exact models and every 'is a tie cheaper' decision depend on these bands)"""
+    r = rng.choice([0.25, 0.375, 0.4375, 0.5, 0.625, 0.75, 1.0, 1.5])
+    b = rng.choice([1.0, 2.0, 4.0])
+    t = r * b
+    fam = rng.choice(["unifying", "pseudodistance", "induced", "free"])
+    if fam == "unifying":
+        return [[0., b, t, 0., b, t], [t, t, 0., t, t, 0.]]
+    if fam == "pseudodistance":
+        return [[0., b, t, 0., b, 0.], [t, t, 0., t, t, 0.]]
+    if fam == "induced":
+        return [[0., b, t, 0., 0., 0.], [t, t, 0., 0., 0., 0.]]
+    b3 = rng.choice([0.0, 0.5])
+    t34 = rng.choice([0.0, t, 0.5])
+    return [[0., b, t, b3, b3 + rng.choice([0.0, 1.0]), rng.choice([0.0, t, 1.0])], [t, t, 0., t34, t34, rng.choice([0.0, t])]]
+
+
 def scheme_decimal(rng):
     return scheme_random(rng, grid=DECIMAL)
 
@@ -115,6 +157,7 @@ def scheme_threshold(rng):
 SCHEME_CLASSES = {
     "S1": scheme_preset, "S2": scheme_preset_multiple, "S3": scheme_random, "S4": scheme_perturbed,
     "S5": scheme_lookalike, "S6": scheme_degenerate, "S7": scheme_decimal, "S8": scheme_threshold,
+    "S9": scheme_free_ties, "S10": scheme_near_tie, "S11": scheme_ratio_band,
 }
 
 
@@ -126,11 +169,11 @@ def scheme(rng, classes="S1 S2 S3 S3 S4 S6"):
 
 
 def is_dyadic(s):
-    """every penalty is k/2^12 with small k: sums over the explored sizes are exact floats"""
+    """every penalty is k/2^24 with k < 2^40: sums over the explored sizes (n <= 60, m <= 200) are exact floats"""
     for vec in s:
         for v in vec:
             f = ref.fr(v)
-            if (1 << 12) % f.denominator != 0 or f.numerator > (1 << 16):
+            if (1 << 24) % f.denominator != 0 or f.numerator >= (1 << 40):
                 return False
     return True
 
@@ -147,7 +190,7 @@ def element_names(rng, n, kind=None):
     """n distinct element names.  kinds: int (0..n-1 shifted), bigint, str, intlike (digit
     strings), mixed_str (words, some digit strings together with words)"""
     if kind is None:
-        kind = rng.choice(["int", "int", "bigint", "str", "str", "intlike", "mixed_str"])
+        kind = rng.choice(["int", "int", "bigint", "str", "str", "intlike", "mixed_str", "digits_plus_word"])
     if kind == "int":
         base = rng.choice([0, 0, 1, 5])
         names = list(range(base, base + n))
@@ -158,6 +201,11 @@ def element_names(rng, n, kind=None):
         names = rng.sample(pool, n) if n <= len(pool) else [f"e{i}" for i in range(n)]
     elif kind == "intlike":
         names = [str(v) for v in rng.sample(range(0, 60), n)]
+    elif kind == "digits_plus_word":
+        # digit strings and a single word: the dataset holds strings, but a sub-problem made of digit strings only
+        # is integer-like on its own
+        names = [str(v) for v in rng.sample(range(0, 60), n)]
+        names[rng.randrange(n)] = rng.choice(["w", "a", "x1"])
     else:
         pool = list(WORDS)
         names = rng.sample(pool, n) if n <= len(pool) else [f"e{i}" for i in range(n)]
@@ -329,6 +377,25 @@ def _dataset(rng, cls, n, m, names, nmax, mmax):
                     sub[j] = sub[j] + sub.pop(j + 1)
                 r.extend(sub)
             ds.append(r)
+        return ds
+    if cls == "D13":     # coarsenings of one linear order: the rankings differ only by ties (pairwise "distance 0"
+        order = list(names)   # under schemes where creating / breaking a tie is free)
+        rng.shuffle(order)
+        ds = []
+        for _ in range(max(m, 2)):
+            r = []
+            for e in order:
+                if r and rng.random() < 0.45:
+                    r[-1].append(e)
+                else:
+                    r.append([e])
+            ds.append(r)
+        return ds
+    if cls == "D14":     # rankings that contain an empty bucket (accepted by the Ranking constructor)
+        ds = _dataset(rng, rng.choice(["D1", "D2", "D2", "D3"]), n, m, names, nmax, mmax)
+        for r in ds:
+            if rng.random() < 0.6:
+                r.insert(rng.randint(0, len(r)), [])
         return ds
     if cls == "D12":     # shuffled insertion order, handled by the caller through names
         return _dataset(rng, rng.choice(["D2", "D3"]), n, m, names, nmax, mmax)
